@@ -202,4 +202,145 @@ theorem ratTrunc_of_nonneg {a : Rat} (h : 0 ≤ a) : ratTrunc a = a.floor := by 
 theorem ratTrunc_le_iff {a : Rat} (h : 0 ≤ a) (n : Int) : ratTrunc a ≤ n ↔ a < ((n + 1 : Int) : Rat) := by
   rw [ratTrunc_of_nonneg h, ← Rat.floor_lt_iff]; omega
 
+/-! ## growth plugin, exact instance -/
+
+theorem growthRatio_nonneg (s : Stat Rat Rat) (hc : 0 ≤ s.cur) (ha : 0 ≤ s.avg) : (0 : Rat) ≤ growthRatio s := by
+  simp only [growthRatio, memoryGrowth, Narrow.narrow, id, Num.zero, Num.div, Num.ofInt]
+  split
+  · exact Rat.le_refl
+  · rename_i hne
+    have hpos : (0 : Rat) < (s.avg : Rat) := by exact_mod_cast (show 0 < s.avg by omega)
+    rw [← Rat.not_lt, Rat.div_lt_iff hpos, Rat.not_lt, Rat.zero_mul]
+    exact_mod_cast hc
+
+
+/-- first tuple component is 0 for every equally preferred sibling when no size-eligible one has positive effective usage -/
+theorem key1_zero (p : GrowthParams Rat) (sibs : List (Stat Rat Rat)) (hwf : ∀ s ∈ sibs, 0 ≤ s.cur ∧ 0 ≤ s.avg ∧ s.prot ≤ s.cur) (pref : Int)
+    (hno : ∀ s ∈ sibs, s.pref = pref → sizeEligible (growthCtx Rat p sibs) s = true → s.eff ≤ 0)
+    (s : Stat Rat Rat) (hs : s ∈ sibs) (hp : s.pref = pref) : (growthKey p (growthCtx Rat p sibs) s).1 = 0 := by
+  simp only [growthKey]
+  split
+  · rename_i he
+    have h1 := hno s hs hp he
+    have h2 := (hwf s hs).2.2
+    simp only [Stat.eff, effectiveUsage] at h1 ⊢
+    omega
+  · rfl
+
+
+/-! ## the percentile cut (`std::nth_element`) -/
+
+theorem insertDesc_perm (x : Int) (l : List Int) : (insertDesc x l).Perm (x :: l) := by
+  induction l with
+  | nil => exact List.Perm.refl _
+  | cons y ys ih =>
+    simp only [insertDesc]
+    split
+    · exact List.Perm.refl _
+    · exact (List.Perm.cons y ih).trans (List.Perm.swap x y ys)
+
+theorem sortDescInt_perm (l : List Int) : (sortDescInt l).Perm l := by
+  induction l with
+  | nil => exact List.Perm.refl _
+  | cons x xs ih =>
+    show (insertDesc x (sortDescInt xs)).Perm (x :: xs)
+    exact (insertDesc_perm x _).trans (List.Perm.cons x ih)
+
+theorem insertDesc_sorted (x : Int) (l : List Int) (h : l.Pairwise (fun a b => b ≤ a)) :
+    (insertDesc x l).Pairwise (fun a b => b ≤ a) := by
+  induction l with
+  | nil => simp [insertDesc]
+  | cons y ys ih =>
+    rw [List.pairwise_cons] at h
+    simp only [insertDesc]
+    split
+    · rename_i hlt
+      rw [List.pairwise_cons]
+      refine ⟨?_, List.pairwise_cons.2 h⟩
+      intro a ha
+      rcases List.mem_cons.1 ha with rfl | ha
+      · omega
+      · have := h.1 a ha; omega
+    · rename_i hnlt
+      rw [List.pairwise_cons]
+      refine ⟨?_, ih h.2⟩
+      intro a ha
+      rcases List.mem_cons.1 ((insertDesc_perm x ys).mem_iff.1 ha) with rfl | ha
+      · omega
+      · exact h.1 a ha
+
+theorem sortDescInt_sorted (l : List Int) : (sortDescInt l).Pairwise (fun a b => b ≤ a) := by
+  induction l with
+  | nil => simp [sortDescInt]
+  | cons x xs ih => exact insertDesc_sorted x _ ih
+
+/-- in a list sorted in descending order, fewer than `i+1` elements exceed the `i`-th and at least `i+1` reach it -/
+theorem sorted_index_counts : ∀ (s : List Int), s.Pairwise (fun a b => b ≤ a) → ∀ (i : Nat) (hi : i < s.length),
+    (s.filter fun x => decide (s[i] < x)).length ≤ i ∧ i + 1 ≤ (s.filter fun x => decide (s[i] ≤ x)).length := by
+  intro s
+  induction s with
+  | nil => intro _ i hi; simp at hi
+  | cons a t ih =>
+    intro hs i hi
+    rw [List.pairwise_cons] at hs
+    cases i with
+    | zero =>
+      simp only [List.getElem_cons_zero]
+      constructor
+      · have : (List.filter (fun x => decide (a < x)) (a :: t)) = [] := by
+          rw [List.filter_eq_nil_iff]
+          intro x hx
+          rcases List.mem_cons.1 hx with rfl | hx
+          · simp
+          · have := hs.1 x hx; simp; omega
+        simp [this]
+      · simp
+    | succ j =>
+      have hj : j < t.length := by simpa using hi
+      obtain ⟨h1, h2⟩ := ih hs.2 j hj
+      simp only [List.getElem_cons_succ]
+      have ham : t[j] ≤ a := hs.1 _ (List.getElem_mem hj)
+      constructor
+      · rw [List.filter_cons]
+        split
+        · simp; omega
+        · omega
+      · rw [List.filter_cons]
+        have : decide (t[j] ≤ a) = true := by simpa using ham
+        simp only [this, if_true, List.length_cons]
+        omega
+
+theorem nthIndex_lt (n : Nat) (P : Int) (hn : 0 < n) (hP : 0 < P) (hP100 : P < 100) : nthIndex n P < n := by
+  unfold nthIndex
+  have h1 : (n : Int) * (100 - P) ≤ (n : Int) * 99 := Int.mul_le_mul_of_nonneg_left (by omega) (by omega)
+  have h2 : (n : Int) * 1 ≤ (n : Int) * (100 - P) := Int.mul_le_mul_of_nonneg_left (by omega) (by omega)
+  generalize (n : Int) * (100 - P) = q at *
+  omega
+
+/-- `nthIndex + 1 = ⌈n (100 − P) / 100⌉` -/
+theorem nthIndex_ceil (n : Nat) (P : Int) (hn : 0 < n) (hP : 0 < P) (hP100 : P < 100) :
+    (n : Int) * (100 - P) ≤ ((nthIndex n P + 1 : Nat) : Int) * 100 ∧ ((nthIndex n P : Nat) : Int) * 100 < (n : Int) * (100 - P) := by
+  unfold nthIndex
+  have h2 : (n : Int) * 1 ≤ (n : Int) * (100 - P) := Int.mul_le_mul_of_nonneg_left (by omega) (by omega)
+  generalize (n : Int) * (100 - P) = q at *
+  omega
+
+theorem growthMinEff_cut (P : Int) (effs : List Int) (hn : 0 < effs.length) (hP : 0 < P) (hP100 : P < 100) :
+    growthMinEff P effs ∈ effs ∧
+    (effs.filter fun x => decide (growthMinEff P effs < x)).length ≤ nthIndex effs.length P ∧
+    nthIndex effs.length P + 1 ≤ (effs.filter fun x => decide (growthMinEff P effs ≤ x)).length := by
+  have hlt := nthIndex_lt effs.length P hn hP hP100
+  have hperm := sortDescInt_perm effs
+  have hlen : (sortDescInt effs).length = effs.length := hperm.length_eq
+  have hi : nthIndex effs.length P < (sortDescInt effs).length := by omega
+  have hm : growthMinEff P effs = (sortDescInt effs)[nthIndex effs.length P] := by
+    simp only [growthMinEff, hn, hP, and_self, if_true]
+    simp [List.getD, hi]
+  obtain ⟨h1, h2⟩ := sorted_index_counts _ (sortDescInt_sorted effs) _ hi
+  rw [hm]
+  refine ⟨hperm.mem_iff.1 (List.getElem_mem hi), ?_, ?_⟩
+  · rw [← (hperm.filter _).length_eq]; exact h1
+  · rw [← (hperm.filter _).length_eq]; exact h2
+
+
 end OomdModel.Rank
